@@ -44,7 +44,11 @@ def build_image(spec):
                                               for i in range(n))
     elif ext == 'hfe':
         enc = 'FM' if spt == 10 else 'MFM'
-        data = flux.hfe_from_surfaces([s0], tracks, spt, enc, spec.get('version', 1))
+        data = flux.hfe_from_surfaces([s0], tracks, spt, enc, spec.get('version', 1), pad_tracks=spec.get('pad', True),
+                                      lut_exact=spec.get('lut_exact', False))
+        if spec.get('cut_tail'):
+            # the file ends where the last track's listed data ends (no padding to a 512-byte block)
+            data = data[:len(data) - spec['cut_tail']]
     elif ext == 'mfm':
         data = flux.hxcmfm_from_surfaces([s0], tracks, spt)
     if spec.get('nsec'):
@@ -238,6 +242,11 @@ def fam_geometry(tier):
     specs.append({'ext': 'hfe', 'tracks': 3, 'spt': 10, 'total': 30})
     specs.append({'ext': 'hfe', 'tracks': 2, 'spt': 18, 'total': 36, 'version': 3})
     specs.append({'ext': 'mfm', 'tracks': 2, 'spt': 18, 'total': 36})
+    specs.append({'ext': 'hfe', 'tracks': 3, 'spt': 10, 'total': 30, 'pad': False})
+    specs.append({'ext': 'hfe', 'tracks': 3, 'spt': 10, 'total': 30, 'lut_exact': True})
+    for cut in (1, 100, 255, 256, 300, 511):
+        specs.append({'ext': 'hfe', 'tracks': 3, 'spt': 10, 'total': 30, 'lut_exact': True, 'cut_tail': cut})
+        specs.append({'ext': 'hfe', 'tracks': 2, 'spt': 18, 'total': 36, 'lut_exact': True, 'cut_tail': cut})
     # catalogue totals smaller than the surface (the probe then has several candidate geometries)
     for ext, tr, spt in (('sdd', 40, 18), ('sdd', 80, 18), ('sdd', 40, 16), ('ddd', 40, 18), ('ssd', 80, 10), ('dsd', 80, 10)):
         for total in (100, 400, 640, 720, 800):
